@@ -40,9 +40,17 @@ void __CPROVER_assert(bool c, const char* m) {
 }
 void hfsm2_verif_break(void) { __CPROVER_assert(false, "C11: HFSM2_ASSERT/HFSM2_BREAK reached"); }
 void VERIF_ENTRY(void);
-#ifdef VERIF_KEYS
-const int ck0 = VERIF_KEYS_0, ck1 = VERIF_KEYS_1, ck2 = VERIF_KEYS_2, ck3 = VERIF_KEYS_3, ck4 = VERIF_KEYS_4, ck5 = VERIF_KEYS_5, ck6 = VERIF_KEYS_6, ck7 = VERIF_KEYS_7;
+#ifndef VERIF_KEYS
+#define VERIF_KEYS_0 0
+#define VERIF_KEYS_1 0
+#define VERIF_KEYS_2 0
+#define VERIF_KEYS_3 0
+#define VERIF_KEYS_4 0
+#define VERIF_KEYS_5 0
+#define VERIF_KEYS_6 0
+#define VERIF_KEYS_7 0
 #endif
+extern const int ck0 = VERIF_KEYS_0, ck1 = VERIF_KEYS_1, ck2 = VERIF_KEYS_2, ck3 = VERIF_KEYS_3, ck4 = VERIF_KEYS_4, ck5 = VERIF_KEYS_5, ck6 = VERIF_KEYS_6, ck7 = VERIF_KEYS_7;
 }
 int main() {
   init();
